@@ -585,6 +585,8 @@ class SimInstance:
                        method=rec['method'], args=rec['args'], tb=rec['internal'])
             rec['done_at'] = w.now
             self.deferred.remove(item)
+            w.emit('rpc_deferred_done', inst=self.nick, inc=self.inc, method=rec['method'], args=rec['args'],
+                   src=rec.get('src'), fault=rec.get('fault'), internal=bool(rec.get('internal')))
 
     def kill_all_children(self):
         for rec in self.procs.values():
